@@ -1273,8 +1273,14 @@ class Intersection(Operation):
            global_state: pg.geno.AttributeDict,
            step: int = 0) -> List[Any]:
     id_count = {}
+    # NOTE: the outputs are kept alive until the ids are compared. Otherwise an
+    # output that is created by an operation (e.g. a mutator) is released right
+    # away and its `id` may be reused by an unrelated object created later.
+    alive = []
     for op in self._ops[1:]:
-      for dna in op(inputs, global_state=global_state, step=step):
+      outputs = op(inputs, global_state=global_state, step=step)
+      alive.append(outputs)
+      for dna in outputs:
         dna_id = id(dna)
         if dna_id not in id_count:
           id_count[dna_id] = 0
@@ -1323,8 +1329,13 @@ class Difference(Operation):
            global_state: pg.geno.AttributeDict,
            step: int = 0) -> List[Any]:
     excluded_ids = set()
+    # NOTE: keep the outputs alive until the ids are compared (see
+    # `Intersection.call`).
+    alive = []
     for op in self._ops[1:]:
-      for dna in op(inputs, global_state=global_state, step=step):
+      outputs = op(inputs, global_state=global_state, step=step)
+      alive.append(outputs)
+      for dna in outputs:
         excluded_ids.add(id(dna))
     results = []
     for dna in self._ops[0](inputs, global_state=global_state, step=step):
